@@ -34,6 +34,66 @@ theorem allOps_complete (o : Op) : o ∈ allOps := by
 theorem no_direct_observation (o : Op) : directObs reviewedInventory o = [] :=
   directObs_nil reviewedInventory no_unmediated_sink o
 
+/-! ## Path arguments are taken literally -/
+
+/-- `shellOps` lists exactly the operations `Op.plain` maps to another operation -/
+theorem shellOps_complete (o : Op) : o ∈ shellOps ∨ o.plain = o := by
+  cases o <;> first | (right; rfl) | (left; decide)
+
+/-- **shell_as_plain.**  An argument made of shell metacharacters — a wildcard `*` `?` `[..]`, a
+    `$NAME` / `${NAME}` reference, a leading `~` — is not special to any path-taking function
+    (`cd`, `ls`, `cat`, `cp` source and destination, `open`, `os.chdir`, `os.read_dir`,
+    `os.read_file`, `os.open`, `os.stat`): the function is the same Go function and makes exactly the
+    calls on the OS, with the same symbolic arguments, as with an ordinary path — no listing, no
+    environment lookup, no home-directory lookup in between. -/
+theorem shell_as_plain :
+    shellOps.all (fun o => o.calls == o.plain.calls && o.goFn == o.plain.goFn) = true := by decide
+
+/-- the call list of a metacharacter operation mentions the script's arguments only symbolically:
+    every argument of every call is `$0`, `$1` or the default file mode -/
+theorem shell_args_symbolic :
+    shellOps.all (fun o => o.calls.all fun c => c.args.all fun x => x == "$0" || x == "$1" || x == "420") = true := by
+  decide
+
+theorem instArg_cases (p q x : String) (h : (x == "$0" || x == "$1" || x == "420") = true) :
+    instArg p q x = p ∨ instArg p q x = q ∨ instArg p q x = "420" := by
+  unfold instArg
+  by_cases h0 : x = "$0"
+  · simp [h0]
+  · by_cases h1 : x = "$1"
+    · simp [h1]
+    · have h2 : x = "420" := by simpa [h0, h1] using h
+      simp [h2]
+
+/-- **shell_args_verbatim.**  For every metacharacter operation and **all** strings `p`, `q` the
+    script passes as its arguments: every argument of every call the host's OS receives is `p`, `q`
+    or the default file mode — never a string produced from a directory listing, an environment or
+    a home directory (of the real process or of anything else). -/
+theorem shell_args_verbatim (o : Op) (ho : o ∈ shellOps) (p q : String) :
+    ∀ c ∈ o.calls.map (Call.inst p q), Call.verbatim p q c := by
+  intro c hc x hx
+  have hs := shell_args_symbolic
+  rw [List.all_eq_true] at hs
+  have h1 := hs o ho
+  rw [List.all_eq_true] at h1
+  obtain ⟨c0, hc0, rfl⟩ := List.mem_map.mp hc
+  have h2 := h1 c0 hc0
+  rw [List.all_eq_true] at h2
+  simp only [Call.inst, List.mem_map] at hx
+  obtain ⟨x0, hx0, rfl⟩ := hx
+  exact instArg_cases p q x0 (h2 x0 hx0)
+
+/-- **shell_first_arg_passed.**  … and the path the script passed does reach the OS: the first call
+    of every metacharacter operation carries the operation's first argument `p` itself. -/
+theorem shell_first_arg_passed :
+    shellOps.all (fun o => match o.calls with
+      | c :: _ => c.args.head? == some "$0"
+      | [] => false) = true := by decide
+
+/-- a metacharacter operation, like every operation, produces no direct-sink observation and calls
+    only methods the extractor found in its Go function -/
+theorem shell_within_inventory : shellOps.all (opWithinInventory reviewedInventory) = true := by decide
+
 /-! ## Resolution and propagation -/
 
 /-- `getOS` precedence: the OS in the context, else the one given with `WithOS`, else the real one -/
